@@ -765,3 +765,87 @@ func TestC04_EmptyRuns(t *testing.T) {
 	rec.Sample(ReaderCase{Total: 308, Plan: faultio.Plan{Chunks: []int{5, 1, 7}, Zeros: []int{0, 0, 99, 0}, LongZeros: true, ErrAt: -1}, Ops: []ROp{{"next", 5}, {"next", 300}}})
 	rec.SetExhaustive()
 }
+
+// TestC04_LongLived: one reader used for thousands of request/Release rounds after its buffer has grown
+// once, with unread data left at (almost) every Release: adaptive buffer management that only acts after
+// a long run of similar rounds must not lose, duplicate or invent bytes.
+func TestC04_LongLived(t *testing.T) {
+	rec := evid.New("C04", "c04_long_lived", "enumeration: one io.Reader-backed reader: a first request of {10000, 70000, 300000} bytes (the buffer grows), then 2600 rounds of {Next/ReadBinary/Peek+Next of {8, 100, 1000} bytes; Release (with a nil or non-nil argument)} over a source delivering chunks of {12, 100, 5000, 9000, 40000} bytes (so that 0..40000 unread bytes are buffered at each Release), final data with or without io.EOF; the cursor model checks every returned byte; distinct by construction")
+	defer rec.Flush()
+	type job struct{ first, small, chunk int }
+	var jobs []job
+	for _, first := range []int{10000, 70000, 300000} {
+		for _, small := range []int{8, 100, 1000} {
+			for _, chunk := range []int{12, 100, 5000, 9000, 40000} {
+				jobs = append(jobs, job{first, small, chunk})
+			}
+		}
+	}
+	var failed bool
+	lock := make(chan struct{}, 1)
+	parallelFor(len(jobs), func(i int, b *evid.Batch) {
+		if failed {
+			return
+		}
+		j := jobs[i]
+		const rounds = 2600
+		ops := []ROp{{"next", j.first}, {"release", 0}}
+		kinds := []string{"next", "readbin", "peek"}
+		for r := 0; r < rounds; r++ {
+			k := kinds[(r+i)%3]
+			ops = append(ops, ROp{k, j.small})
+			if k == "peek" {
+				ops = append(ops, ROp{"next", j.small})
+			}
+			ops = append(ops, ROp{"release", r % 3}) // the history interpreter passes an error argument for n != 0
+		}
+		c := ReaderCase{Total: j.first + rounds*j.small + 50000, Plan: faultio.Plan{Chunks: []int{j.chunk}, ErrAt: -1, WithData: i%2 == 0}, Ops: ops}
+		var cv cov
+		v := checkReaderCase(c, &cv)
+		b.Evals++
+		b.Distinct++
+		b.Nontrivial++
+		if v != nil {
+			lock <- struct{}{}
+			if !failed {
+				failed = true
+				small := c
+				small.Ops = nil
+				failEnum(t, rec, "c04_long_lived", LongReaderCase{First: j.first, Small: j.small, Chunk: j.chunk, Rounds: rounds, WithData: i%2 == 0, Variant: i % 3}, v)
+			}
+			<-lock
+		}
+	}, rec)
+	rec.Sample(LongReaderCase{First: 70000, Small: 100, Chunk: 9000, Rounds: 2600})
+	rec.SetExhaustive()
+}
+
+// LongReaderCase is the compact replayable form of a c04_long_lived case.
+type LongReaderCase struct {
+	First    int  `json:"first"`
+	Small    int  `json:"small"`
+	Chunk    int  `json:"chunk"`
+	Rounds   int  `json:"rounds"`
+	WithData bool `json:"withdata,omitempty"`
+	Variant  int  `json:"variant,omitempty"`
+}
+
+func init() {
+	register("c04_long_lived", func(c LongReaderCase, cv *cov) *evid.Violation {
+		if c.First < 0 || c.First > 1<<20 || c.Small < 1 || c.Small > 10000 || c.Rounds < 0 || c.Rounds > 20000 || c.Chunk < 0 {
+			return nil
+		}
+		ops := []ROp{{"next", c.First}, {"release", 0}}
+		kinds := []string{"next", "readbin", "peek"}
+		for r := 0; r < c.Rounds; r++ {
+			k := kinds[(r+c.Variant)%3]
+			ops = append(ops, ROp{k, c.Small})
+			if k == "peek" {
+				ops = append(ops, ROp{"next", c.Small})
+			}
+			ops = append(ops, ROp{"release", r % 3})
+		}
+		rc := ReaderCase{Total: c.First + c.Rounds*c.Small + 50000, Plan: faultio.Plan{Chunks: []int{c.Chunk}, ErrAt: -1, WithData: c.WithData}, Ops: ops}
+		return checkReaderCase(rc, cv)
+	})
+}
